@@ -33,6 +33,10 @@ CORRUPT = ['', ' ', 'x', '-', '1e400', '99999999999999999999', '2020-13-01', '9'
            'A' * 101, 'ab' * 75 + '=', '!' * 120,
            # printf-like directives (error paths that build their message with %)
            '1%s', '%d%d', '100%', '%(x)s']
+CONTENT_TYPES = ['<absent>', '', ';', 'BASE', 'BASE;', 'BASE; charset', 'BASE; charset=', 'BASE; charset="utf-8', 'BASE; charset="utf-8"', 'BASE; =utf-8',
+                 'BASE; charset=utf-8; charset=latin-1', 'BASE; charset=no-such-charset', 'BASE; x', 'BASE; x=1; y', 'BASE; type="a;b"', 'BASE;;;',
+                 'BASE ; charset = utf-8', 'BASE; CHARSET=UTF-8', 'multipart/related', 'multipart/related; boundary', 'multipart/related; boundary=',
+                 'multipart/related; boundary=x; type="a;b"', 'multipart/form-data; boundary', 'text', '/', 'a/b/c', 'BASE\t; charset=utf-8', 'BASE; ' + 'p=1; ' * 200 + 'q']
 STRUCT_ALPHABET = b'<>/="\'{}[]:,&;?! \n\x00\xff\x80aA0-.'
 
 
@@ -121,7 +125,7 @@ class Runner(object):
         h = self.h
         return h.proto if self.fam == 'xml' else h.wire if self.fam == 'dict' else 'http'
 
-    def run(self, data):
+    def run(self, data, content_type=None):
         """data: bytes (body) or str (query string for http).  -> dict"""
         h = self.h
         b = h.b
@@ -134,7 +138,9 @@ class Runner(object):
         elif self.transport == 'wsgi':
             ct = {'xml': 'text/xml; charset=utf-8', 'soap11': 'text/xml; charset=utf-8', 'soap12': 'application/soap+xml; charset=utf-8',
                   'json': 'application/json', 'yaml': 'text/yaml', 'msgpack': 'application/x-msgpack', 'msgpackrpc': 'application/x-msgpack'}[self.family]
-            env = drv.environ('POST', '/', '', data, content_type=ct)
+            env = drv.environ('POST', '/', '', data, content_type=ct if content_type is None else content_type)
+            if content_type == '<absent>':
+                env.pop('CONTENT_TYPE', None)
             o = drv.call_wsgi(self.wsgi, env)
         else:
             o = drv.call_server(h.srv, data)
@@ -230,6 +236,10 @@ def verdict(r, runner, mutated, res, casedoc, mkind):
         return 'non-client-fault'
     if r['status'] is not None:
         soap = runner.out_family in ('soap11', 'soap12')
+        if soap and r['status'] == '405' and code == 'Client.RequestNotAllowed':
+            # (SOAP over HTTP: a request that is not a POST with a Content-Type is refused at the HTTP level; the property
+            # fixes the status class for the non-SOAP protocols only)
+            return 'client-fault'
         if soap and r['status'] != '500':
             V('http-status', 'soap-%s' % r['status'], 'SOAP fault sent with HTTP %s' % r['status'])
             return 'http-status'
@@ -502,6 +512,27 @@ def run_shard(shard, only=None):
                 oc = verdict(r, rn, d, res, casedoc, 'tiny-document')
                 res['evaluations'] += 1
                 res['cov']['tiny'] += 1
+                res['nontrivial'] += 1
+                res['outcomes'][oc] = res['outcomes'].get(oc, 0) + 1
+        # hostile values of the Content-Type header around a VALID body: parameters without '=', without a value, unbalanced
+        # or semicolon-carrying quotes, repeated and unknown parameters, multipart types without their parameters
+        if fam != 'http':
+            rn = Runner(fam, h, 'wsgi')
+            m = h.b.methods['m']
+            valid = xsdcodec.build_request(h.codec, m, [5, 7], cfg['proto']) if fam == 'xml' else h.codec.request_bytes(m, [5, 7])
+            base = {'xml': 'text/xml', 'soap11': 'text/xml', 'soap12': 'application/soap+xml', 'json': 'application/json', 'yaml': 'text/yaml',
+                    'msgpack': 'application/x-msgpack', 'msgpackrpc': 'application/x-msgpack'}[rn.family]
+            for ct in CONTENT_TYPES:
+                ct = ct.replace('BASE', base)
+                key = ['wsgi', 'content-type', ct]
+                if only is not None and only != key:
+                    continue
+                r = rn.run(valid, content_type=ct)
+                oc = verdict(r, rn, valid, res, {'shard': shard, 'only': key}, 'content-type')
+                if oc == 'escape' or oc.startswith('non-client') or oc == 'fault-undecodable':
+                    res['violations'][-1]['what'] = 'Content-Type %r: %s' % (ct, res['violations'][-1]['what'])
+                res['evaluations'] += 1
+                res['cov']['content_types'] = res['cov'].get('content_types', 0) + 1
                 res['nontrivial'] += 1
                 res['outcomes'][oc] = res['outcomes'].get(oc, 0) + 1
         from vf.props.c01 import compress
